@@ -110,6 +110,9 @@ static UriBool URI_FUNC(LowercaseMalloc)(const URI_CHAR ** first,
 static void URI_FUNC(PreventLeakage)(URI_TYPE(Uri) * uri,
 		unsigned int revertMask, UriMemoryManager * memory);
 
+static UriBool URI_FUNC(FixPathStart)(URI_TYPE(Uri) * uri,
+		UriBool pathOwned, UriMemoryManager * memory);
+
 
 
 static URI_INLINE void URI_FUNC(PreventLeakage)(URI_TYPE(Uri) * uri,
@@ -181,6 +184,67 @@ static URI_INLINE void URI_FUNC(PreventLeakage)(URI_TYPE(Uri) * uri,
 		uri->fragment.first = NULL;
 		uri->fragment.afterLast = NULL;
 	}
+}
+
+
+
+/* After dot segment removal the path of a URI without authority can start
+ * with "//" (e.g. "/a/..//b" -> "//b"), which would be read back as an
+ * authority, and the first segment of a relative-path reference can contain
+ * a colon (e.g. "a/../b:c" -> "b:c"), which would be read back as a scheme.
+ * A "." segment in front keeps the meaning in both cases. */
+static URI_INLINE UriBool URI_FUNC(FixPathStart)(URI_TYPE(Uri) * uri,
+		UriBool pathOwned, UriMemoryManager * memory) {
+	URI_TYPE(PathSegment) * const head = uri->pathHead;
+	URI_TYPE(PathSegment) * segment;
+	UriBool needed = URI_FALSE;
+
+	if ((head == NULL) || URI_FUNC(IsHostSet)(uri)) {
+		return URI_TRUE;
+	}
+
+	if ((head->next != NULL)
+			&& (head->text.first == head->text.afterLast)
+			&& (uri->absolutePath
+				|| (head->next->text.first == head->next->text.afterLast))) {
+		needed = URI_TRUE;
+	} else if (!uri->absolutePath && (uri->scheme.first == NULL)) {
+		const URI_CHAR * ch = head->text.first;
+		for (; ch < head->text.afterLast; ch++) {
+			if (*ch == _UT(':')) {
+				needed = URI_TRUE;
+				break;
+			}
+		}
+	}
+
+	if (!needed) {
+		return URI_TRUE;
+	}
+
+	segment = memory->malloc(memory, 1 * sizeof(URI_TYPE(PathSegment)));
+	if (segment == NULL) {
+		return URI_FALSE; /* Raises malloc error */
+	}
+
+	if (pathOwned) {
+		/* Segment texts of this path get freed later so this one must be freeable, too */
+		URI_CHAR * const dot = memory->malloc(memory, 1 * sizeof(URI_CHAR));
+		if (dot == NULL) {
+			memory->free(memory, segment);
+			return URI_FALSE; /* Raises malloc error */
+		}
+		dot[0] = _UT('.');
+		segment->text.first = dot;
+		segment->text.afterLast = dot + 1;
+	} else {
+		segment->text.first = URI_FUNC(ConstPwd);
+		segment->text.afterLast = URI_FUNC(ConstPwd) + 1;
+	}
+	segment->reserved = NULL;
+	segment->next = head;
+	uri->pathHead = segment;
+	return URI_TRUE;
 }
 
 
@@ -728,6 +792,13 @@ static URI_INLINE int URI_FUNC(NormalizeSyntaxEngine)(URI_TYPE(Uri) * uri,
 			return URI_ERROR_MALLOC;
 		}
 		URI_FUNC(FixEmptyTrailSegment)(uri, memory);
+		if (!URI_FUNC(FixPathStart)(uri,
+				(uri->owner == URI_TRUE)
+				|| ((doneMask & URI_NORMALIZE_PATH) != 0),
+				memory)) {
+			URI_FUNC(PreventLeakage)(uri, doneMask, memory);
+			return URI_ERROR_MALLOC;
+		}
 	}
 
 	/* Query, fragment */
